@@ -294,6 +294,41 @@ L.__rlshift__ = _l_arith(operator.lshift, True)
 L.__rrshift__ = _l_arith(operator.rshift, True)
 
 
+def match(w, mask, value):
+    """(w & mask) == value for a plain int or a lazy word, MSB-first, requesting one unresolved bit at a time."""
+    if isinstance(w, int):
+        return (w & mask) == value
+    prov = w.prov
+    n = len(prov)
+    b = mask.bit_length() - 1
+    while b >= 0:
+        if (mask >> b) & 1:
+            p = prov[b] if b < n else Z
+            want = (value >> b) & 1
+            if p == Z:
+                if want:
+                    return False
+            elif p == O:
+                if not want:
+                    return False
+            else:
+                raise NeedBits([p])
+        b -= 1
+    return True
+
+
+def field(w, positions):
+    """Concatenation of the given bit positions (MSB first) of a plain int or lazy word - pure routing."""
+    if isinstance(w, int):
+        v = 0
+        for b in positions:
+            v = (v << 1) | ((w >> b) & 1)
+        return v
+    prov = w.prov
+    n = len(prov)
+    return _mk(w.ctx, [prov[b] if b < n else Z for b in reversed(positions)])
+
+
 def word(mask, val, width=32):
     return _mk((mask, val), list(range(width)))
 
